@@ -229,7 +229,7 @@ def str_spec(draw, sat=True, patterns=True):
     if mode == "plain":
         return s
     if mode == "pattern":
-        pat = draw(regexgen.pattern_strategy(2))
+        pat = draw(regexgen.cheap_pattern_strategy(2))
         s["pattern"] = regexgen.render(pat)
         return s
     if mode in ("value", "value+"):
